@@ -221,7 +221,7 @@ def run(ctx):
             syndromes = [np.array(s, dtype=int) for s in itertools.product((0, 1), repeat=m)]
             n_dist_per = 1 if m > 5 else 2
         else:
-            k_s = ctx.pick(60, 400) if n <= 13 else (ctx.pick(40, 250) if n <= 18 else ctx.pick(16, 100))
+            k_s = ctx.pick(60, 400) if n <= 13 else (ctx.pick(40, 250) if n <= 18 else (ctx.pick(16, 100) if n <= 20 else ctx.pick(8, 30)))
             syndromes = [np.zeros(m, dtype=int)] + [np.array([rng.random() < rng.choice([0.1, 0.3, 0.5]) for _ in range(m)], dtype=int)
                                                    for _ in range(k_s)]
             n_dist_per = 1
@@ -374,6 +374,17 @@ def run(ctx):
 
     sect['node values'] = round(time.time() - t_sec, 1)
     t_sec = time.time()
+    # ---- stabilizer tensors are deltas (tsr.delta) ------------------------------------------------------
+    from qecsim.tensortools import tsr as tt_tsr
+    for shape in itertools.product((1, 2, 3), repeat=4):
+        dl = tt_tsr.delta(shape)
+        add('tsr.delta', 'delta %d.%d.%d.%d' % shape, ','.join(str(int(v)) for v in dl.flatten()), shape)
+        ctx.count(None, False, 'delta')
+        for idx in np.ndindex(shape):
+            nd = [i for i, dsz in zip(idx, shape) if dsz != 1]
+            if int(dl[idx]) != (1 if len(set(nd)) <= 1 else 0):
+                ctx.violation('delta', 'delta tensor entry is not [all non-dummy indices equal]', {'shape': list(shape), 'index': list(idx)})
+                break
     # ---- planar Y decoder ---------------------------------------------------------------------------------
     ydec = PlanarYDecoder()
     for (rr, cc) in [(r_, c_) for r_ in range(2, 6) for c_ in range(2, 6)]:
